@@ -75,11 +75,22 @@ Definition C03_presets_stmt : Prop :=
 Definition bonus_bounded (cfg : config) : Prop := bonus_white cfg <= 10 /\ bonus_delim cfg <= 10.
 Definition C03_linear_score_stmt : Prop :=
   forall cfg a hs ns s idx, a <> Fuzzy -> prefer_prefix cfg = false -> bonus_bounded cfg ->
-    lenN (cs ns) <= 2500 ->
+    lenN (cs ns) <= 2500 -> needle_ok cfg (rp ns) (cs ns) = true ->
     run cfg a hs ns = Match s idx -> s = fzf_score cfg (rp hs) (cs hs) idx.
 
-(* whatever the length, the linear scorers never exceed u16::MAX (saturation, no wrap-around) *)
+(* whatever the length, the linear scorers never exceed u16::MAX (saturation, no wrap-around).
+   The configured boundary bonuses are private fields that only the presets set (at most 10). *)
 Definition C03_no_wrap_stmt : Prop :=
+  forall cfg a hs ns s idx, a <> Fuzzy -> bonus_bounded cfg -> run cfg a hs ns = Match s idx -> s <= 65535.
+
+(* first formulations, kept because they are refuted (Proofs/ScoreFacts.v): without `needle_ok` an
+   un-normalised needle is accepted by exact_impl and then mis-scored; without a bound on the configured
+   bonuses the unsaturated first-character term 16 + 2 * bonus can exceed u16::MAX *)
+Definition C03_linear_score_naive_stmt : Prop :=
+  forall cfg a hs ns s idx, a <> Fuzzy -> prefer_prefix cfg = false -> bonus_bounded cfg ->
+    lenN (cs ns) <= 2500 ->
+    run cfg a hs ns = Match s idx -> s = fzf_score cfg (rp hs) (cs hs) idx.
+Definition C03_no_wrap_naive_stmt : Prop :=
   forall cfg a hs ns s idx, a <> Fuzzy -> run cfg a hs ns = Match s idx -> s <= 65535.
 
 (* ---- C04 ----------------------------------------------------------------------------------------- *)
@@ -143,3 +154,47 @@ Definition C10_layout_stmt : Prop :=
     let '(lh, lb, lr, ls, lm) := view_lengths hr hl nl in
     oh + lh <= ob /\ ob + lb <= orow /\ orow + lr <= os /\ os + ls <= om /\ om + lm <= SLAB_SIZE /\
     oh mod char_size hr = 0 /\ orow mod 2 = 0 /\ os mod 8 = 0.
+
+(* ---- the DP (fuzzy_optimal): C02 / C03 / C04 / C10 for the optimal entry point ------------------- *)
+(* C10, model level: the optimal entry point never panics (no u16 underflow in the row-offset
+   arithmetic, no out-of-range index in score_row / reconstruct, the "caught by prefilter" assert never
+   fires, max_by_key is never over an empty range) *)
+Definition DP_no_panic_stmt : Prop :=
+  forall cfg hs ns init_row k, needle_ok cfg (rp ns) (cs ns) = true ->
+    fuzzy_impl cfg hs ns init_row <> Panicked k.
+
+(* C10, history independence: the result does not depend on what earlier calls left in the scratch row *)
+Definition C10_history_stmt : Prop :=
+  forall cfg hs ns row1 row2, needle_ok cfg (rp ns) (cs ns) = true ->
+    fuzzy_impl cfg hs ns row1 = fuzzy_impl cfg hs ns row2.
+
+(* C02 for the DP: reconstruct_optimal_path reports a valid embedding *)
+Definition DP_witness_stmt : Prop :=
+  forall cfg hs ns s idx, needle_ok cfg (rp ns) (cs ns) = true ->
+    run cfg Fuzzy hs ns = Match s idx ->
+    embedding_b idx (cs ns) (nh cfg (rp hs) (cs hs)) 0 = true.
+
+(* C03 for the DP: the reported score is the fzf scheme on the reported alignment.  needle <= 2048 is
+   enforced by the slab guard on the DP path; on the fallback paths the bound 2500 is needed as in
+   C03_linear_score *)
+Definition DP_score_stmt : Prop :=
+  forall cfg hs ns s idx, prefer_prefix cfg = false -> bonus_bounded cfg -> lenN (cs ns) <= 2500 ->
+    needle_ok cfg (rp ns) (cs ns) = true ->
+    run cfg Fuzzy hs ns = Match s idx -> s = fzf_score cfg (rp hs) (cs hs) idx.
+
+(* C04: never above the maximum over all alignments *)
+Definition C04_upper_stmt : Prop :=
+  forall cfg hs ns s idx b, prefer_prefix cfg = false -> bonus_bounded cfg -> lenN (cs ns) <= 2500 ->
+    needle_ok cfg (rp ns) (cs ns) = true -> cs ns <> [] ->
+    run cfg Fuzzy hs ns = Match s idx -> best_score cfg (rp hs) (cs hs) (cs ns) = Some b -> s <= b.
+
+(* C04: for a one-character needle the best-placed occurrence wins: the score is the maximum of
+   16 + 2 * bonus over all occurrences *)
+Definition C04_single_stmt : Prop :=
+  forall cfg hs c nr s idx, prefer_prefix cfg = false -> ~ known_K1 hs {| rp := nr; cs := [c] |} ->
+    needle_ok cfg nr [c] = true -> (1 < length (cs hs))%nat ->
+    run cfg Fuzzy hs {| rp := nr; cs := [c] |} = Match s idx ->
+    (exists i, idx = [i] /\ nth (N.to_nat i) (nh cfg (rp hs) (cs hs)) 0 = c /\ (N.to_nat i < length (cs hs))%nat /\
+               s = 16 + 2 * spec_bonus_at cfg (rp hs) (cs hs) i) /\
+    (forall j, (N.to_nat j < length (cs hs))%nat -> nth (N.to_nat j) (nh cfg (rp hs) (cs hs)) 0 = c ->
+               16 + 2 * spec_bonus_at cfg (rp hs) (cs hs) j <= s).
